@@ -94,6 +94,15 @@ def oracle_extrema(x):
             continue
         if [float(v) for v in mags0] != [float(x[i]) if mode != 'abs_peaks' else float(abs(x[i])) for i in exp]:
             fails.append(('_find_extrema', 'mode=%s: magnitudes %s are not the signal values at %s' % (mode, list(mags0), exp)))
+        # with parabolic refinement the SAME extrema are detected, each refined to within half a sample of its strict extremum
+        try:
+            plocs, pmags = sift.get_padded_extrema(X, pad_width=0, mode=mode, parabolic_extrema=True)
+        except Exception as e:
+            plocs = None
+            fails.append(('_find_extrema(parabolic)', 'mode=%s: raised %s' % (mode, type(e).__name__)))
+        if plocs is None or len(plocs) != len(exp) or any(abs(float(a) - b) > 0.5 + 1e-9 for a, b in zip(plocs, exp)):
+            fails.append(('_find_extrema(parabolic)', 'mode=%s: with parabolic refinement the extrema are %s, the strict local extrema are at %s'
+                          % (mode, None if plocs is None else [round(float(v), 3) for v in plocs], exp)))
         for p in PADS[1:]:
             locs, mags = sift.get_padded_extrema(X, pad_width=p, mode=mode)
             locs = [int(v) for v in locs]
